@@ -28,6 +28,7 @@ type HarnessSpec struct {
 	Solver   string
 	Schedule bool
 	MapOrder bool
+	MapOrderFilter string
 	Preempt  int
 	Race     bool
 	PoolDirty bool
@@ -349,7 +350,7 @@ func cmdCheck(args []string) {
 			to = 20000
 		}
 		cfg := RunConfig{Harness: s.Name, Pkg: modPath + "/internal/zz" + s.Pkg, Params: params, Solver: parseSolverKind(s.Solver), TimeoutMS: to,
-			MaxSteps: maxSteps, WallBudget: wall, Workers: *workers, ScheduleMode: s.Schedule, MapOrderMode: s.MapOrder, PreemptBound: s.Preempt,
+			MaxSteps: maxSteps, WallBudget: wall, Workers: *workers, ScheduleMode: s.Schedule, MapOrderMode: s.MapOrder, MapOrderFilter: s.MapOrderFilter, PreemptBound: s.Preempt,
 			Race: s.Race, PoolDirty: s.PoolDirty}
 		hr := explore(ld, cfg)
 		totalPaths += hr.Paths
@@ -428,7 +429,7 @@ func cmdCheck(args []string) {
 			vars := filterModel(c.Model, c.Choices)
 			h := sha1.Sum([]byte(fmt.Sprint(key, vars)))
 			rp := filepath.Join(*verifDir, "replays", prop, fmt.Sprintf("%s-%x.json", sanitize(key), h[:4]))
-			vf := vectorFile{Harness: s.Name, Pkg: s.Pkg, Vars: vars, Params: params, Expect: key, Kind: c.Kind, Detail: firstLines(c.Detail, 3), Obs: obsStrings(c.Observed), Property: prop, Stress: s.Schedule}
+			vf := vectorFile{Harness: s.Name, Pkg: s.Pkg, Vars: vars, Params: params, Expect: key, Kind: c.Kind, Detail: firstLines(c.Detail, 3), Obs: obsStrings(c.Observed), Property: prop, Stress: s.Schedule || s.MapOrder}
 			confirmed := false
 			why := ""
 			if s.NoNative || nat == "" {
@@ -437,8 +438,8 @@ func cmdCheck(args []string) {
 				tmpf := filepath.Join(*verifDir, "bin", fmt.Sprintf("cex-%x.json", h[:6]))
 				writeVector(tmpf, vf)
 				rep := 1
-				if s.Schedule {
-					rep = 300 // schedule-dependent: stress the native build
+				if s.Schedule || s.MapOrder {
+					rep = 300 // schedule- or map-order-dependent: stress the native build
 				}
 				natBin := nat
 				if c.Kind == "race" {
